@@ -14,6 +14,43 @@
    with processed > ssl->inlen. */
 #include "pair.h"
 
+/* Control: the feature the branch exists for.  A genuine retransmit of the
+   client's last flight ([ClientKeyExchange][CCS][Finished]) reaches a server
+   that has not seen application data yet; the CCS and the Finished behind it
+   are skipped and application data still flows afterwards. */
+static int control(void)
+{
+    peer_t cli, svr;
+    unsigned char *out, *w;
+    int n, nd = 0;
+    feed_t *r = calloc(1, sizeof(*r));
+
+    if (setupPair(&cli, &svr, SSL_FLAGS_TLS_1_2, 0x003c, 1) < 0) { printf("control: setup failed\n"); return 2; }
+    n = matrixDtlsGetOutdata(cli.ssl, &out);
+    while ((n = matrixDtlsGetOutdata(cli.ssl, &out)) > 0)
+    {
+        nd++;
+        feedBytes(&svr, out, n, r);
+        matrixDtlsSentData(cli.ssl, n);
+        if (r->err < 0 || (svr.ssl->flags & SSL_FLAGS_ERROR) || svr.ssl->inlen != 0)
+        {
+            printf("VIOLATION: control: genuine flight retransmit broke the server (err %d inlen %d)\n", r->err, svr.ssl->inlen);
+            return 1;
+        }
+    }
+    while ((n = takeOutdata(&svr, &w, 1)) > 0) { feed_t *rc = calloc(1, sizeof(*rc)); feedBytes(&cli, w, n, rc); free(w); free(rc); }
+    n = sendApp(&cli, (const unsigned char *) "hello", 5, &w, 1);
+    memset(r, 0, sizeof(*r));
+    feedBytes(&svr, w, n, r);
+    if (r->dataLen != 5 || memcmp(r->data, "hello", 5))
+    {
+        printf("VIOLATION: control: data after a genuine flight retransmit not delivered (%d bytes, rc %d)\n", r->dataLen, r->lastRc);
+        return 1;
+    }
+    printf("OK: control: genuine retransmitted flight (%d datagram(s)) skipped, 'hello' delivered afterwards\n", nd);
+    return 0;
+}
+
 int main(int argc, char **argv)
 {
     peer_t cli, svr;
@@ -53,6 +90,6 @@ int main(int argc, char **argv)
             svr.ssl->inlen, (long) (svr.ssl->inbuf - buf), room, svr.ssl->insize, -svr.ssl->inlen);
         return 1;
     }
-    printf("no violation\n");
-    return 0;
+    printf("OK: the unauthenticated datagram left ssl->inlen=%d and the read buffer inside ssl->inbuf\n", svr.ssl->inlen);
+    return control();
 }
